@@ -415,7 +415,10 @@ def reach_probe(unit, cfgname, workdir, ctext):
         return None
     cfg = dict(sp.configs[cfgname])
     probe_spec_cfg = cfgname + '__reach'
-    sp.configs[probe_spec_cfg] = dict(cfg, defs=cfg.get('defs', '') + ' -DREACH_PROBE_ON=1', min_obligations='1', only_property='harness.assertion.1')
+    n_asserts = sp.sec('harness').count('__CPROVER_assert(') + sp.sec('harness').count('REACH_END()')
+    sp.configs[probe_spec_cfg] = dict(cfg, defs=cfg.get('defs', '') + ' -DREACH_PROBE_ON=1', min_obligations='1')
+    if n_asserts <= 1:
+        sp.configs[probe_spec_cfg]['only_property'] = 'harness.assertion.1'
     old_name = sp.name
     try:
         r = run_config(unit, probe_spec_cfg, workdir, ctext=ctext)
